@@ -95,9 +95,9 @@ theorem listMin_mem {l : List Nat} (h : l ≠ []) : listMin l ∈ l := by
     · exact List.mem_cons_of_mem _ h
 
 /-- every instance has at least one column (what a DataFrame with ≥ 1 column guarantees) -/
-def WellShaped (X : Panel) : Prop := X ≠ [] ∧ ∀ inst ∈ X, inst ≠ []
+def WellShaped {α : Type} (X : PanelOf α) : Prop := X ≠ [] ∧ ∀ inst ∈ X, inst ≠ []
 
-theorem le_maxLength {X : Panel} {inst : Inst} {c : Cell} (hi : inst ∈ X) (hc : c ∈ inst) :
+theorem le_maxLength {α : Type} {X : PanelOf α} {inst : List (List α)} {c : List α} (hi : inst ∈ X) (hc : c ∈ inst) :
     c.length ≤ maxLength X := by
   unfold maxLength
   have h1 : c.length ≤ listMax (inst.map List.length) := le_listMax (List.mem_map.mpr ⟨c, hc, rfl⟩)
@@ -105,7 +105,7 @@ theorem le_maxLength {X : Panel} {inst : Inst} {c : Cell} (hi : inst ∈ X) (hc 
     le_listMax (List.mem_map.mpr ⟨inst, hi, rfl⟩)
   exact Nat.le_trans h1 h2
 
-theorem maxLength_isMax {X : Panel} (h : WellShaped X) : Spec.IsMaxLength X (maxLength X) := by
+theorem maxLength_isMax {α : Type} {X : PanelOf α} (h : WellShaped X) : Spec.IsMaxLength X (maxLength X) := by
   refine ⟨fun inst hi c hc => le_maxLength hi hc, ?_⟩
   unfold maxLength
   have hne : X.map (fun inst => listMax (inst.map List.length)) ≠ [] := by simpa using h.1
@@ -114,7 +114,7 @@ theorem maxLength_isMax {X : Panel} (h : WellShaped X) : Spec.IsMaxLength X (max
   obtain ⟨c, hc, he2⟩ := List.mem_map.mp (listMax_mem hne2)
   exact ⟨inst, hi, c, hc, by rw [he2, he]⟩
 
-theorem minLength_le {X : Panel} {inst : Inst} {c : Cell} (hi : inst ∈ X) (hc : c ∈ inst) :
+theorem minLength_le {α : Type} {X : PanelOf α} {inst : List (List α)} {c : List α} (hi : inst ∈ X) (hc : c ∈ inst) :
     minLength X ≤ c.length := by
   unfold minLength
   have h1 : listMin (inst.map List.length) ≤ c.length := listMin_le (List.mem_map.mpr ⟨c, hc, rfl⟩)
@@ -122,7 +122,7 @@ theorem minLength_le {X : Panel} {inst : Inst} {c : Cell} (hi : inst ∈ X) (hc 
     listMin_le (List.mem_map.mpr ⟨inst, hi, rfl⟩)
   exact Nat.le_trans h2 h1
 
-theorem minLength_isMin {X : Panel} (h : WellShaped X) : Spec.IsMinLength X (minLength X) := by
+theorem minLength_isMin {α : Type} {X : PanelOf α} (h : WellShaped X) : Spec.IsMinLength X (minLength X) := by
   refine ⟨fun inst hi c hc => minLength_le hi hc, ?_⟩
   unfold minLength
   have hne : X.map (fun inst => listMin (inst.map List.length)) ≠ [] := by simpa using h.1
@@ -131,7 +131,7 @@ theorem minLength_isMin {X : Panel} (h : WellShaped X) : Spec.IsMinLength X (min
   obtain ⟨c, hc, he2⟩ := List.mem_map.mp (listMin_mem hne2)
   exact ⟨inst, hi, c, hc, by rw [he2, he]⟩
 
-theorem checkX_ok {X : Panel} (h : WellShaped X) : checkX X = .ok () := by
+theorem checkX_ok {α : Type} {X : PanelOf α} (h : WellShaped X) : checkX X = .ok () := by
   obtain ⟨h1, h2⟩ := h
   cases X with
   | nil => exact absurd rfl h1
@@ -142,7 +142,7 @@ theorem checkX_ok {X : Panel} (h : WellShaped X) : checkX X = .ok () := by
 
 /-! ### padding -/
 
-theorem createPad_eq_spec (L : Nat) (fill : Rat) (c : Cell) (h : c.length ≤ L) :
+theorem createPad_eq_spec {α : Type} (L : Nat) (fill : α) (c : List α) (h : c.length ≤ L) :
     createPad L fill c = Spec.padCell L fill c := by
   apply List.ext_getElem
   · simp [createPad, Spec.padCell]; omega
@@ -153,14 +153,14 @@ theorem createPad_eq_spec (L : Nat) (fill : Rat) (c : Cell) (h : c.length ≤ L)
     · rw [List.getElem_append_right (by omega)]
       simp [List.getD_eq_getElem?_getD, hi]
 
-theorem padCell_length (L : Nat) (fill : Rat) (c : Cell) : (Spec.padCell L fill c).length = L := by
+theorem padCell_length {α : Type} (L : Nat) (fill : α) (c : List α) : (Spec.padCell L fill c).length = L := by
   simp [Spec.padCell]
 
-theorem padCell_prefix (L : Nat) (fill : Rat) (c : Cell) (h : c.length ≤ L) :
+theorem padCell_prefix {α : Type} (L : Nat) (fill : α) (c : List α) (h : c.length ≤ L) :
     Spec.padCell L fill c = c ++ List.replicate (L - c.length) fill := by
   rw [← createPad_eq_spec L fill c h]; simp [createPad]
 
-theorem padTransform_eq_spec (L : Int) (fill : Rat) (X : Panel)
+theorem padTransform_eq_spec {α : Type} (L : Int) (fill : α) (X : PanelOf α)
     (hX : WellShaped X) (hL : (maxLength X : Int) ≤ L) :
     padTransform L fill X = .ok (Spec.pad L.toNat fill X) := by
   have hnot : ¬ ((maxLength X : Int) > L) := by omega
@@ -175,7 +175,7 @@ theorem padTransform_eq_spec (L : Int) (fill : Rat) (X : Panel)
   have := le_maxLength hi hc
   omega
 
-theorem padTransform_rejects (L : Int) (fill : Rat) (X : Panel)
+theorem padTransform_rejects {α : Type} (L : Int) (fill : α) (X : PanelOf α)
     (hX : WellShaped X) (hL : L < (maxLength X : Int)) :
     padTransform L fill X = .error .value := by
   have : (maxLength X : Int) > L := by omega
